@@ -251,9 +251,10 @@ TEXT_ADDENDA = {
     "C07": " Also: on every path of start_election some time is spent asleep between announcing the candidacy and claiming (explicit clock token), and the closures of set-primary / set-secoundary tag the link with the last announced member and role.",
     "C02": " A refused set-safe leaves nothing on the replication channel (unit outbox); get-safe reports the stored version also for a tombstone.",
     "C08": " A refused login leaves the whole selection - database and user - unchanged (unit sessions); a refused command leaves nothing on the replication channel (unit outbox).",
-    "C09": " The credentials checked are the tokens sent (parsers of auth / use-db, unit parser); a refused login leaves the session bound as before, an accepted user login binds exactly that user (unit sessions).",
+    "C04": " Also under contract: db_ops::create_db (unit ids: a database is created by the primary or over the link tagged as the primary's, with the name, strategy and token the line carries; an existing name or any other sender is refused and changes nothing) and every line of replicate_request (snapshot / replicate-snapshot name the databases the command names, create-db carries name, token and strategy, create-user / set-permissions leave as writes of their keys).",
+    "C09": " create-db is accepted only on the primary or over the primary's link (create_db, unit ids). The credentials checked are the tokens sent (parsers of auth / use-db, unit parser); a refused login leaves the session bound as before, an accepted user login binds exactly that user (unit sessions).",
     "C19": " A write received from a peer goes through the same resolving operation on every node role (op_replicate_set); a database restored without a metadata file gets the newer strategy (unit snapshot).",
-    "C05": " The live emitter (replicate_request, get_replicate_message) and the receiving parser of `replicate` are under contract too: the layout `db key VERSION value` is what one writes and the other reads.",
+    "C05": " The receiving side of `create-db` is verified (create_db, unit ids). The live emitter (replicate_request, get_replicate_message) and the receiving parser of `replicate` are under contract too: the layout `db key VERSION value` is what one writes and the other reads.",
     "C06": " The snapshot DRIVER is verified too (unit driver): a snapshot request for an existing database is queued with its mode and answered Ok, one for an unknown database is refused; snapshot_all_pendding_dbs (real while-let loop, invariant) saves the key map first and then takes exactly the requested snapshots - one per request, each database in its own mode, vanished databases skipped - and leaves the queue empty.",
     "C01": " process_request hands the parser the received line minus only its line feeds (unit outbox).",
     "C17": " An HTTP request's session is released when the request ends, whatever its commands answered (process_commands, unit http).",
